@@ -1,15 +1,16 @@
 #!/bin/sh
 # re-validates every kept seed against /repo HEAD: the patch applies, the suite passes with it, the demo separates the trees, the property's check reports a violation
 # usage: ./seedall.sh [jobs]   (default 4 seeds at a time; each in its own scratch worktree, removed afterwards)
-cd /verif
+HERE="$(cd "$(dirname "$0")" && pwd)"      # also works from a snapshot of /verif (vp run)
+cd "$HERE"
 one() {
   d=$1; id=$(basename $d); prop=$(echo $id | cut -d- -f1)
   WT=/tmp/wt-seedall-$id-$$
   git -C /repo worktree add -q --detach $WT HEAD || { echo "$id WORKTREE-FAILED"; return; }
-  if git -C $WT apply --3way $d/patch.diff 2>/dev/null || (cd $WT && patch -p1 --fuzz=3 -s < /verif/$d/patch.diff >/dev/null 2>&1); then
+  if git -C $WT apply --3way $HERE/$d/patch.diff 2>/dev/null || (cd $WT && patch -p1 --fuzz=3 -s < $HERE/$d/patch.diff >/dev/null 2>&1); then
     suite=$(cd $WT && /venv/bin/python -m pytest -q -p no:cacheprovider --timeout=900 2>&1 | tail -1 | cut -c1-40)
-    PDFMINER_ROOT=$WT /venv/bin/python $d/demo.py >/dev/null 2>&1; dm=$?
-    PDFMINER_ROOT=/repo /venv/bin/python $d/demo.py >/dev/null 2>&1; dr=$?
+    PDFMINER_ROOT=$WT /venv/bin/python $HERE/$d/demo.py >/dev/null 2>&1; dm=$?
+    PDFMINER_ROOT=/repo /venv/bin/python $HERE/$d/demo.py >/dev/null 2>&1; dr=$?
     out=$(PYVC_REPO=$WT ./check $prop 2>&1 | grep -c "^VIOLATION")
     echo "$id applied suite=[$suite] demo(mod)=$dm demo(repo)=$dr violations=$out"
   else
